@@ -496,6 +496,7 @@ static void parse_layout(char *spec,layout_t *y,int *linkid,int defserial){
     else if(!strncmp(p,"mux=",4)) y->mux=atoi(p+4);
     else if(!strncmp(p,"hs=",3)) y->hdrsplit=atoi(p+3);
     else if(!strncmp(p,"noeos=",6)) y->noeos=atoi(p+6);
+    else if(!strncmp(p,"noaud=",6)) y->noaud=atoi(p+6);
   }
 }
 
